@@ -73,3 +73,33 @@ theorem aligned_agree (len x0 : Int) (n : Nat) (hl : 0 ≤ len) (hal : x0 % 2 ^ 
   omega
 
 end J2k
+
+namespace J2k
+open Gen.J2kTiles
+
+/-- live encoder code and decoder count the same number of precinct columns (rows), for every origin -/
+theorem numPrecinct_agree (x0 resW pw : Int) (h0 : 0 ≤ x0) (hw : 0 ≤ resW) (hpw : 1 ≤ pw) :
+    encNumPrecinct x0 resW pw = decNumPrecinct x0 resW pw := by
+  unfold encNumPrecinct decNumPrecinct Gen.J2kT2.floorDiv Gen.J2kT2.ceilDiv
+  have c1 : ¬ pw ≤ 0 := by omega
+  have c2 : x0 + resW ≥ 0 := by omega
+  simp only [c1, decide_false, Bool.false_eq_true, if_false, ge_iff_le, h0, decide_true, if_true, c2]
+
+/-- with origin 0 the count is ⌈resW/pw⌉ -/
+theorem decNumPrecinct_zero (resW pw : Int) (hw : 1 ≤ resW) (hpw : 1 ≤ pw) :
+    decNumPrecinct 0 resW pw = (resW + pw - 1) / pw := by
+  unfold decNumPrecinct Gen.J2kT2.floorDiv Gen.J2kT2.ceilDiv
+  have c1 : ¬ pw ≤ 0 := by omega
+  have c2 : (0 : Int) + resW ≥ 0 := by omega
+  simp only [c1, decide_false, Bool.false_eq_true, if_false, ge_iff_le, Int.le_refl, decide_true, if_true, c2]
+  simp only [Int.zero_add, Int.tdiv_zero, Int.zero_mul, Int.sub_zero]
+  rw [tdiv_eq_ediv (by omega : 0 ≤ resW + pw - 1)]
+  have hq : 1 ≤ (resW + pw - 1) / pw := by
+    have := numTiles_pos (by omega : 0 < pw) hw; omega
+  have hq0 : 0 ≤ (resW + pw - 1) / pw * pw := Int.mul_nonneg (by omega) (by omega)
+  have ez : Int.tdiv 0 pw * pw = 0 := by simp
+  rw [ez, Int.sub_zero, tdiv_eq_ediv hq0, Int.mul_ediv_cancel _ (by omega : pw ≠ 0)]
+  have : ¬ ((resW + pw - 1) / pw < 1) := by omega
+  simp [this]
+
+end J2k
